@@ -352,7 +352,13 @@ pub fn execute(plan: &CachePlan) -> RunResult {
                     bump("probe.ttl0_insert_shared");
                     let eb = snapshot_entries(&b, &keymap);
                     let ea = snapshot_entries(&a, &keymap);
-                    if eb != ea || b.current_size != a.current_size {
+                    // nothing of it is stored: no new entry, no entry refreshed
+                    let key = (*name, *rtype, *val);
+                    let stored = match (&eb, &ea) {
+                        (Ok(eb), Ok(ea)) => ea.get(&key).is_some_and(|e| eb.get(&key) != Some(e)),
+                        _ => true,
+                    };
+                    if stored {
                         vs.push(Violation::new("c05.ttl0_stored").detail(json!({
                             "step": step, "record": show_rr(&rr)
                         })));
@@ -404,19 +410,21 @@ pub fn execute(plan: &CachePlan) -> RunResult {
                 // the shared cache stores nothing of a TTL-0 record, batch or not
                 if plan.shared {
                     if let (Ok(eb), Ok(ea)) = (snapshot_entries(&before, &keymap), snapshot_entries(&after, &keymap)) {
-                        let mut want: std::collections::BTreeSet<Key> = eb.keys().copied().collect();
-                        for (name, rtype, val, ttl) in items {
-                            if *ttl > 0 {
-                                want.insert((*name, *rtype, *val));
-                            }
-                        }
-                        let got: std::collections::BTreeSet<Key> = ea.keys().copied().collect();
-                        if got != want {
+                        // a TTL-0 record of the batch neither creates nor refreshes an
+                        // entry (unless the same batch also carries it with a TTL)
+                        let stored: Vec<String> = items
+                            .iter()
+                            .filter(|i| i.3 == 0)
+                            .map(|i| (i.0, i.1, i.2))
+                            .filter(|k| !items.iter().any(|j| j.3 > 0 && (j.0, j.1, j.2) == *k))
+                            .filter(|k| ea.get(k).is_some_and(|e| eb.get(k) != Some(e)))
+                            .map(|k| format!("{k:?}"))
+                            .collect();
+                        if !stored.is_empty() {
                             vs.push(Violation::new("c05.ttl0_stored").fact("in_a_batch", true).detail(json!({
                                 "step": step,
                                 "batch": rrs.iter().map(show_rr).collect::<Vec<_>>(),
-                                "extra": got.difference(&want).map(|k| format!("{k:?}")).collect::<Vec<_>>(),
-                                "missing": want.difference(&got).map(|k| format!("{k:?}")).collect::<Vec<_>>(),
+                                "stored": stored,
                             })));
                         }
                     }
@@ -557,7 +565,21 @@ pub fn execute(plan: &CachePlan) -> RunResult {
                 shape = mix64(shape ^ 4 ^ ((expired as u64) << 8) ^ ((evicted as u64) << 24));
             }
         }
-        structural(&target.snapshot(), &model, &mut vs, step);
+        let snap_now = target.snapshot();
+        // when an expired record physically vanishes is not specified: it may go
+        // before any prune (say, when its name is next written to).  The model
+        // follows; a record with a second or more to live may not go that way.
+        if let Ok(held) = snapshot_entries(&snap_now, &keymap) {
+            let t = clock::elapsed_nanos();
+            let gone: Vec<Key> = model.entries.keys().filter(|k| !held.contains_key(*k)).copied().collect();
+            for k in gone {
+                if model.entries[&k] < t.saturating_add(SEC) {
+                    model.entries.remove(&k);
+                    bump("probe.expired_record_gone_before_a_prune");
+                }
+            }
+        }
+        structural(&snap_now, &model, &mut vs, step);
         if !vs.is_empty() {
             break;
         }
